@@ -2,6 +2,8 @@ SPECIFICATION Spec
 CONSTANTS
   Atomic = FALSE
   Readers = 1
+  Lookups = 0
+  NegCache = FALSE
   CachedView = TRUE
 INVARIANT InvPackSeesPool
 CHECK_DEADLOCK FALSE
